@@ -54,6 +54,9 @@ func (r *Recorder) BuildReport(now time.Time, maxSize int) *rtcp.CCFeedbackRepor
 	}
 	maxReportBlocks := max((maxSize-12-(8*streamCount))/2, 0)
 	maxReportBlocksPerStream := maxReportBlocks / streamCount
+	// An odd number of metric blocks is padded to a multiple of 32 bits: only hand out
+	// whole words, otherwise the padding of each stream makes the report exceed maxSize.
+	maxReportBlocksPerStream -= maxReportBlocksPerStream % 2
 
 	for _, log := range r.streams {
 		block := log.metricsAfter(now, int64(maxReportBlocksPerStream))
